@@ -104,133 +104,165 @@ Proof.
       destruct g1 as [| | | ? [|] ? ? ? | | |]; auto. apply andb_true_iff in H as [_ H]; exact H.
 Qed.
 
-(* ================================================================== refutations (witness event lists, vm_compute) *)
+(* ================================================================== refutations (witness event lists, vm_compute)
+   `rr_pinned` = raft.rs before the two election repairs, `rr_fixed` = after both (Raft.v: raftrev).
+   The witnesses of the election defects are about `rr_pinned` (and about the revisions with only one of the two
+   repairs); the witnesses of the log-replication defects hold for EVERY revision. *)
+
+Definition rr_only_term : raftrev := mkRev true false.    (* only `vote_request` adopts the term *)
+Definition rr_only_match : raftrev := mkRev false true.   (* only `response()` checks the term *)
 
 (* C27 is false of the faithful model.  Witness 1 (3 nodes): node 2 answers Ok to the Vote requests of two
    candidates of term 1, because voting does not raise its term and `Voted(1)` is forgotten on term timeout. *)
 Lemma w27_double_vote_facts :
-  let h := c_hist (run w27_double_vote_n w27_double_vote) in
+  let h := c_hist (run rr_pinned w27_double_vote_n w27_double_vote) in
   election_safety_b h = false /\ double_vote_b h = true /\ stale_vote_b h = false.
 Proof. vm_compute. auto. Qed.
 
 (* Witness 2 (5 nodes): nobody supports two candidates in one term, but candidate 0 counts a stale Ok. *)
 Lemma w27_stale_vote_facts :
-  let h := c_hist (run w27_stale_vote_n w27_stale_vote) in
+  let h := c_hist (run rr_pinned w27_stale_vote_n w27_stale_vote) in
   election_safety_b h = false /\ double_vote_b h = false /\ stale_vote_b h = true.
 Proof. vm_compute. auto. Qed.
 
 Lemma C27_refuted_double_vote :
-  ~ (forall size evs, election_safety (c_hist (run size evs))).
+  ~ (forall size evs, election_safety (c_hist (run rr_pinned size evs))).
 Proof.
   intros H. specialize (H w27_double_vote_n w27_double_vote).
   apply election_safety_b_sound in H. destruct w27_double_vote_facts as [F _]. cbv zeta in F. congruence.
 Qed.
 
 Lemma C27_refuted_stale_vote :
-  exists size evs, double_vote_b (c_hist (run size evs)) = false /\ ~ election_safety (c_hist (run size evs)).
+  exists size evs, double_vote_b (c_hist (run rr_pinned size evs)) = false /\
+                   ~ election_safety (c_hist (run rr_pinned size evs)).
 Proof.
   exists w27_stale_vote_n, w27_stale_vote. destruct w27_stale_vote_facts as [F [D _]]. cbv zeta in F, D.
   split; [exact D|]. intros H. apply election_safety_b_sound in H. congruence.
 Qed.
 
+(* each repair alone is not enough: with only the term check in `response()` the double-vote witness still has two
+   leaders of term 1; with only the term adoption in `vote_request` the stale-vote witness still has *)
+Lemma w27_single_repair_facts :
+  election_safety_b (c_hist (run rr_only_match w27_double_vote_n w27_double_vote)) = false /\
+  election_safety_b (c_hist (run rr_only_term w27_stale_vote_n w27_stale_vote)) = false.
+Proof. vm_compute. auto. Qed.
+
+Lemma C27_refuted_unless_both_repairs :
+  forall rv, rv <> rr_fixed -> ~ (forall size evs, election_safety (c_hist (run rv size evs))).
+Proof.
+  intros [[|] [|]] Hne H.
+  - exfalso. apply Hne. reflexivity.
+  - specialize (H w27_stale_vote_n w27_stale_vote). apply election_safety_b_sound in H.
+    destruct w27_single_repair_facts as [_ F]. unfold rr_only_term in F. congruence.
+  - specialize (H w27_double_vote_n w27_double_vote). apply election_safety_b_sound in H.
+    destruct w27_single_repair_facts as [F _]. unfold rr_only_match in F. congruence.
+  - apply C27_refuted_double_vote. exact H.
+Qed.
 
 (* which of the five decidable defect classes occur in a history:
    (double vote, stale vote counted, ack from diverged log, old-term commit, ack below voted term) *)
 Definition classes (h : list ghost) : bool * bool * bool * bool * bool :=
   (double_vote_b h, stale_vote_b h, ack_diverged_b h, old_term_commit_b h, ack_below_vote_b h).
 
-(* C28c *)
-Lemma w28_facts :
-  (let c := run w28_ack_diverged_n w28_ack_diverged in
+(* C28c.  The first two witnesses do not depend on the election repairs: the same facts for every revision. *)
+Lemma w28_facts_any : forall rv,
+  (let c := run rv w28_ack_diverged_n w28_ack_diverged in
    committed_agree_b c = false /\ election_safety_b (c_hist c) = true /\
    classes (c_hist c) = (false, false, true, false, false)) /\
-  (let c := run w28_old_term_commit_n w28_old_term_commit in
+  (let c := run rv w28_old_term_commit_n w28_old_term_commit in
    committed_agree_b c = false /\ election_safety_b (c_hist c) = true /\
-   classes (c_hist c) = (false, false, false, true, false)) /\
-  (let c := run w28_ack_below_vote_n w28_ack_below_vote in
+   classes (c_hist c) = (false, false, false, true, false)).
+Proof. intros [[|] [|]]; vm_compute; repeat split; reflexivity. Qed.
+
+(* the witnesses through "voting does not raise the term" and through the election defects: before the repairs *)
+Lemma w28_facts_pinned :
+  (let c := run rr_pinned w28_ack_below_vote_n w28_ack_below_vote in
    committed_agree_b c = false /\ election_safety_b (c_hist c) = true /\
    classes (c_hist c) = (false, false, false, false, true)) /\
-  (let c := run w28_double_vote_n w28_double_vote in committed_agree_b c = false /\ double_vote_b (c_hist c) = true) /\
-  (let c := run w28_stale_vote_n w28_stale_vote in committed_agree_b c = false /\ stale_vote_b (c_hist c) = true).
+  (let c := run rr_pinned w28_double_vote_n w28_double_vote in committed_agree_b c = false /\ double_vote_b (c_hist c) = true) /\
+  (let c := run rr_pinned w28_stale_vote_n w28_stale_vote in committed_agree_b c = false /\ stale_vote_b (c_hist c) = true).
 Proof. vm_compute. repeat split; reflexivity. Qed.
 
-Lemma C28c_refuted : ~ (forall size evs, committed_agree (run size evs)).
+Lemma C28c_refuted : forall rv, ~ (forall size evs, committed_agree (run rv size evs)).
 Proof.
-  intros H. specialize (H w28_ack_diverged_n w28_ack_diverged).
-  apply committed_agree_b_sound in H. destruct w28_facts as [[F _] _]. cbv zeta in F. congruence.
+  intros rv H. specialize (H w28_ack_diverged_n w28_ack_diverged).
+  apply committed_agree_b_sound in H. destruct (w28_facts_any rv) as [[F _] _]. cbv zeta in F. congruence.
 Qed.
 
 (* agreement fails in histories with one leader per term in which exactly one defect class occurs:
-   three independent causes *)
-Definition refuted_agree_with (cl : bool * bool * bool * bool * bool) : Prop :=
-  exists size evs, let c := run size evs in
+   independent causes *)
+Definition refuted_agree_with (rv : raftrev) (cl : bool * bool * bool * bool * bool) : Prop :=
+  exists size evs, let c := run rv size evs in
     election_safety (c_hist c) /\ classes (c_hist c) = cl /\ ~ committed_agree c.
 
-Lemma C28c_refuted_ack_diverged : refuted_agree_with (false, false, true, false, false).
+Lemma C28c_refuted_ack_diverged : forall rv, refuted_agree_with rv (false, false, true, false, false).
 Proof.
-  exists w28_ack_diverged_n, w28_ack_diverged. destruct w28_facts as [[F [E C]] _]. cbv zeta in *.
+  intros rv. exists w28_ack_diverged_n, w28_ack_diverged. destruct (w28_facts_any rv) as [[F [E C]] _]. cbv zeta in *.
   repeat split; auto.
   - apply election_safety_b_complete; exact E.
   - intros H. apply committed_agree_b_sound in H. congruence.
 Qed.
 
-Lemma C28c_refuted_old_term_commit : refuted_agree_with (false, false, false, true, false).
+Lemma C28c_refuted_old_term_commit : forall rv, refuted_agree_with rv (false, false, false, true, false).
 Proof.
-  exists w28_old_term_commit_n, w28_old_term_commit. destruct w28_facts as [_ [[F [E C]] _]]. cbv zeta in *.
+  intros rv. exists w28_old_term_commit_n, w28_old_term_commit. destruct (w28_facts_any rv) as [_ [F [E C]]]. cbv zeta in *.
   repeat split; auto.
   - apply election_safety_b_complete; exact E.
   - intros H. apply committed_agree_b_sound in H. congruence.
 Qed.
 
-Lemma C28c_refuted_ack_below_vote : refuted_agree_with (false, false, false, false, true).
+Lemma C28c_refuted_ack_below_vote : refuted_agree_with rr_pinned (false, false, false, false, true).
 Proof.
-  exists w28_ack_below_vote_n, w28_ack_below_vote. destruct w28_facts as [_ [_ [[F [E C]] _]]]. cbv zeta in *.
+  exists w28_ack_below_vote_n, w28_ack_below_vote. destruct w28_facts_pinned as [[F [E C]] _]. cbv zeta in *.
   repeat split; auto.
   - apply election_safety_b_complete; exact E.
   - intros H. apply committed_agree_b_sound in H. congruence.
 Qed.
 
 (* C29 *)
-Lemma w29_facts :
-  (let h := c_hist (run w29_old_term_commit_n w29_old_term_commit) in
+Lemma w29_facts_any : forall rv,
+  (let h := c_hist (run rv w29_old_term_commit_n w29_old_term_commit) in
    leader_completeness_b h = false /\ election_safety_b h = true /\ classes h = (false, false, false, true, false)) /\
-  (let h := c_hist (run w29_ack_diverged_n w29_ack_diverged) in
-   leader_completeness_b h = false /\ election_safety_b h = true /\ classes h = (false, false, true, false, false)) /\
-  (let h := c_hist (run w29_ack_below_vote_n w29_ack_below_vote) in
+  (let h := c_hist (run rv w29_ack_diverged_n w29_ack_diverged) in
+   leader_completeness_b h = false /\ election_safety_b h = true /\ classes h = (false, false, true, false, false)).
+Proof. intros [[|] [|]]; vm_compute; repeat split; reflexivity. Qed.
+
+Lemma w29_facts_pinned :
+  (let h := c_hist (run rr_pinned w29_ack_below_vote_n w29_ack_below_vote) in
    leader_completeness_b h = false /\ election_safety_b h = true /\ classes h = (false, false, false, false, true)) /\
-  (let h := c_hist (run w29_double_vote_n w29_double_vote) in leader_completeness_b h = false /\ double_vote_b h = true) /\
-  (let h := c_hist (run w29_stale_vote_n w29_stale_vote) in leader_completeness_b h = false /\ stale_vote_b h = true).
+  (let h := c_hist (run rr_pinned w29_double_vote_n w29_double_vote) in leader_completeness_b h = false /\ double_vote_b h = true) /\
+  (let h := c_hist (run rr_pinned w29_stale_vote_n w29_stale_vote) in leader_completeness_b h = false /\ stale_vote_b h = true).
 Proof. vm_compute. repeat split; reflexivity. Qed.
 
-Lemma C29_refuted : ~ (forall size evs, leader_completeness (c_hist (run size evs))).
+Lemma C29_refuted : forall rv, ~ (forall size evs, leader_completeness (c_hist (run rv size evs))).
 Proof.
-  intros H. specialize (H w29_old_term_commit_n w29_old_term_commit).
-  apply leader_completeness_b_sound in H. destruct w29_facts as [[F _] _]. cbv zeta in F. congruence.
+  intros rv H. specialize (H w29_old_term_commit_n w29_old_term_commit).
+  apply leader_completeness_b_sound in H. destruct (w29_facts_any rv) as [[F _] _]. cbv zeta in F. congruence.
 Qed.
 
-Definition refuted_completeness_with (cl : bool * bool * bool * bool * bool) : Prop :=
-  exists size evs, let h := c_hist (run size evs) in
+Definition refuted_completeness_with (rv : raftrev) (cl : bool * bool * bool * bool * bool) : Prop :=
+  exists size evs, let h := c_hist (run rv size evs) in
     election_safety h /\ classes h = cl /\ ~ leader_completeness h.
 
-Lemma C29_refuted_old_term_commit : refuted_completeness_with (false, false, false, true, false).
+Lemma C29_refuted_old_term_commit : forall rv, refuted_completeness_with rv (false, false, false, true, false).
 Proof.
-  exists w29_old_term_commit_n, w29_old_term_commit. destruct w29_facts as [[F [E C]] _]. cbv zeta in *.
+  intros rv. exists w29_old_term_commit_n, w29_old_term_commit. destruct (w29_facts_any rv) as [[F [E C]] _]. cbv zeta in *.
   repeat split; auto.
   - apply election_safety_b_complete; exact E.
   - intros H. apply leader_completeness_b_sound in H. congruence.
 Qed.
 
-Lemma C29_refuted_ack_diverged : refuted_completeness_with (false, false, true, false, false).
+Lemma C29_refuted_ack_diverged : forall rv, refuted_completeness_with rv (false, false, true, false, false).
 Proof.
-  exists w29_ack_diverged_n, w29_ack_diverged. destruct w29_facts as [_ [[F [E C]] _]]. cbv zeta in *.
+  intros rv. exists w29_ack_diverged_n, w29_ack_diverged. destruct (w29_facts_any rv) as [_ [F [E C]]]. cbv zeta in *.
   repeat split; auto.
   - apply election_safety_b_complete; exact E.
   - intros H. apply leader_completeness_b_sound in H. congruence.
 Qed.
 
-Lemma C29_refuted_ack_below_vote : refuted_completeness_with (false, false, false, false, true).
+Lemma C29_refuted_ack_below_vote : refuted_completeness_with rr_pinned (false, false, false, false, true).
 Proof.
-  exists w29_ack_below_vote_n, w29_ack_below_vote. destruct w29_facts as [_ [_ [[F [E C]] _]]]. cbv zeta in *.
+  exists w29_ack_below_vote_n, w29_ack_below_vote. destruct w29_facts_pinned as [[F [E C]] _]. cbv zeta in *.
   repeat split; auto.
   - apply election_safety_b_complete; exact E.
   - intros H. apply leader_completeness_b_sound in H. congruence.
